@@ -221,7 +221,7 @@ def run(ctx):
     if ctx.quick:
         sj = sj[::2]
     n = 0
-    for cnt, vs in ctx.pmap(chunk_single, sj, chunksize=2):
+    for cnt, vs in ctx.pmap_forked(chunk_single, sj, chunksize=2):
         n += cnt
         ctx.add_violations(vs)
     ctx.sub("single_pair_show_save", states=len(sj) * 3, transitions=n, evaluations=n, traces=n, distinct_nontrivial=n * 3 // 4, exhaustive=True)
@@ -230,7 +230,7 @@ def run(ctx):
     lists = [(i,) for i in range(k)] + [(i, j) for i in range(k) for j in range(k)]
     bj = [(ix, m) for ix in lists for m in ((1,) if ctx.quick else (0, 1, 2))]
     m = 0
-    for cnt, vs in ctx.pmap(chunk_bulk, bj, chunksize=2):
+    for cnt, vs in ctx.pmap_forked(chunk_bulk, bj, chunksize=2):
         m += cnt
         ctx.add_violations(vs)
     ctx.sub("bulk_save_report", states=len(bj), transitions=m, evaluations=m, traces=m, distinct_nontrivial=m // 2, exhaustive=True)
